@@ -329,6 +329,23 @@ static int run() {
         if ((int)g2.size() != ntgt || g2[r] != want) { if (bad++ < 6) std::printf("VIOLATED: items with images of %d, %d, %d adjacent rows: a flag given to item %d lands on row %d as %d\n", b[0], b[1], b[2], which, r, (int)g2.size() == ntgt ? g2[r] : -1); break; } }
     }
   }
+  // one item whose image lies in two different value nodes with abutting index ranges (constraint rows [0,2) and variables [2,4)):
+  // the two target ranges must stay two entries (ranges are adjacent only inside one node)
+  {
+    mp::Env env; DummyFlatModel model; NullLogger lg;
+    mp::pre::ValuePresolver vp(model, env, lg);
+    mp::pre::One2ManyLink o2m(vp);
+    auto& src = vp.GetSourceNodes().GetConValues().MakeSingleKey();
+    auto& dstc = vp.GetTargetNodes().GetConValues().MakeSingleKey();
+    auto& dstv = vp.GetTargetNodes().GetVarValues().MakeSingleKey();
+    auto s0 = src.Add();
+    auto tc = dstc.Add(2); dstv.Add(2); auto tv = dstv.Add(2);
+    o2m.AddEntry({s0, tc}); o2m.AddEntry({s0, tv});
+    std::vector<int> rows(2, 0), cols(4, 0); cols[3] = 4;
+    mp::pre::ModelValuesInt mv{ cols, rows, {} };
+    std::vector<int> got = vp.PostsolveIIS(mv).GetConValues()();
+    if (got.size() != 1 || got[0] != 4) { if (bad++ < 6) std::printf("VIOLATED: an item with images in two value nodes (rows [0,2), variables [2,4)): a flag on variable 3 comes back as %d\n", got.size() == 1 ? got[0] : -1); }
+  }
   if (!bad) std::printf("OK: values stay with the image of their own item (adjacent images)\n");
   return bad != 0;
 }
